@@ -22,6 +22,7 @@ nothing from Lean) and checks the property on the log.
 """
 from __future__ import annotations
 
+import functools
 import itertools
 import random
 import types
@@ -39,7 +40,7 @@ def L(xs):
     return ",".join(xs) if xs else "-"
 
 
-def callable_token(comp: str, j: int, kind: str) -> str:
+def callable_token(comp: str, j: int, kind: str, ntab: int = 0) -> str:
     """how `_get_modifier_name` / `_convert_dependencies` will see the callable the harness builds"""
     if kind == "func":
         return f"f:fn{j}_{comp}"
@@ -47,26 +48,40 @@ def callable_token(comp: str, j: int, kind: str) -> str:
         return f"m:{comp}:meth{j}"
     if kind == "named":
         return f"n:tbl{j}_{comp}"
+    if kind == "object":            # instance of a class `Anon` with __call__ and no name
+        return "o:Anon"
+    if kind == "partial":           # functools.partial: no name, no __name__
+        return "o:partial"
+    if kind == "table":             # a real LookupTable: named after the number of tables built before it
+        return f"n:lookup_table_{ntab}"
     return "p:" + kind[5:]          # "pipe:<key>"
 
 
 def flatten(case, order):
     """the registrations of one simulation in the order the real setup performs them: components in supply
-    order; inside a component `setup()` first, then the Component-level initializer
-    (`Component.setup_component`). The edge-set comparison validates this reading on every run."""
-    regs = []
+    order (a parent before its sub-components, depth first); inside a component `setup()` first, then the
+    Component-level initializer (`Component.setup_component`). `rate` (register_rate_producer) is a source,
+    `stepmod` (builder.time.register_step_size_modifier) a modifier of `simulant_step_size`. The edge-set
+    comparison validates this reading on every run."""
+    regs, ntab = [], 0
     for ci in order:
         c = case["comps"][ci]
         n = c["name"]
         for j, op in enumerate(c["setup"]):
             k = op[0]
+            if k == "stepmod":
+                op = ["mod", "simulant_step_size"] + list(op[1:])
+                k = "mod"
+            if k == "rate":
+                k = "src"
             if k == "init":
                 regs.append({"op": "init", "comp": n, "label": f"{n}.init{j}", "creates": op[1], "rc": op[2], "rv": op[3], "rs": op[4]})
             elif k in ("src", "mod"):
                 if op[2].startswith("pipe:"):
                     regs.append({"op": "getv", "key": op[2][5:]})
-                regs.append({"op": k, "key": op[1], "label": f"{n}.{k}{j}", "callable": callable_token(n, j, op[2]),
+                regs.append({"op": k, "key": op[1], "label": f"{n}.{k}{j}", "callable": callable_token(n, j, op[2], ntab),
                              "rc": op[3], "rv": op[4], "rs": op[5]})
+                ntab += op[2] == "table"
             elif k == "getv":
                 regs.append({"op": "getv", "key": op[1]})
             elif k == "strm":
@@ -77,6 +92,11 @@ def flatten(case, order):
         if h is not None:
             regs.append({"op": "init", "comp": n, "label": n, "creates": h["creates"], "rc": h["rc"], "rv": h["rv"], "rs": h["rs"]})
     return regs
+
+
+def birth_plan(case):
+    """per step the list of (phase 0..3, count): an int entry means `count` births in the time_step phase"""
+    return [sorted(([1, e] if isinstance(e, int) else list(e)) for e in step) for step in (case.get("births") or [])]
 
 
 def render(r) -> str:
@@ -109,6 +129,14 @@ def analyse(regs, keys):
     dups, producers, things, pipes, order_of_things = [], {}, {}, {}, []
     seen_streams, seen_comps = set(), set()
     double_init = badtype = False
+    nulls = [0]
+
+    def node_of(names_long):
+        """the resource the thing's graph node is known by (`null.<k>` for a producer of nothing)"""
+        if names_long:
+            return names_long[0]
+        nulls[0] += 1
+        return f"null.{nulls[0] - 1}"
 
     def produce(name, tid):
         if name in producers:
@@ -133,7 +161,8 @@ def analyse(regs, keys):
             seen_comps.add(r["comp"])
             tid = r["label"]
             req = declared(r)
-            things[tid] = {"init": True, "req": req, "tracked": "tracked" not in r["creates"], "creates": list(r["creates"]), "direct": r}
+            things[tid] = {"init": True, "req": req, "tracked": "tracked" not in r["creates"], "creates": list(r["creates"]), "direct": r,
+                           "node": node_of(["column." + c for c in r["creates"]])}
             order_of_things.append(tid)
             for c in r["creates"]:
                 produce("column." + c, tid)
@@ -169,7 +198,8 @@ def analyse(regs, keys):
             tid = r["label"]
             is_init = (not r["names"]) or r["type"] == "column"
             things[tid] = {"init": is_init, "req": [(d, False) for d in r["deps"]], "tracked": False,
-                           "creates": list(r["names"]) if r["type"] == "column" else []}
+                           "creates": list(r["names"]) if r["type"] == "column" else [],
+                           "node": node_of([r["type"] + "." + x for x in r["names"]])}
             if is_init:
                 order_of_things.append(tid)
             for nme in r["names"]:
@@ -215,9 +245,21 @@ def _run_sim(case, order):
         if view is not None and cols:
             view.update(pd.DataFrame({c: 1.0 for c in cols}, index=d.index))
 
-    def one(x):
-        """a one-element list is sometimes passed as a plain string, as the API allows"""
-        return x[0] if len(x) == 1 and len(x[0]) % 2 == 0 else list(x)
+    def seq(x, form):
+        """the container / call form the declaration is made in (the API takes a string or any sequence)"""
+        if form == "tuple":
+            return tuple(x)
+        if form == "str" and len(x) == 1:
+            return x[0]
+        return list(x)
+
+    class Anon:
+        """a callable object without `name` / `__name__` (finding F25, repaired)"""
+        def __init__(self, value):
+            self.value = value
+
+        def __call__(self, index, *a):
+            return pd.Series(self.value, index=index)
 
     class Base(Component):
         def __init__(self, spec):
@@ -228,19 +270,25 @@ def _run_sim(case, order):
         def name(self):
             return self.spec["name"]
 
-        def _callable(self, b, j, kind):
+        def _callable(self, b, j, kind, value=1.0):
             if kind.startswith("pipe:"):
                 return b.value.get_value(kind[5:])
+            if kind == "table":
+                return b.lookup.build_table(1.0)
+            if kind == "object":
+                return Anon(value)
+            if kind == "partial":
+                return functools.partial(lambda v, index, *a: pd.Series(v, index=index), value)
 
             def fn(index, *a):
-                return pd.Series(1.0, index=index)
+                return pd.Series(value, index=index)
 
             if kind == "func":
                 fn.__name__ = f"fn{j}_{self.name}"
                 return fn
             if kind == "method":
                 def meth(this, index, *a):
-                    return pd.Series(1.0, index=index)
+                    return pd.Series(value, index=index)
                 meth.__name__ = f"meth{j}"
                 return types.MethodType(meth, self)
 
@@ -249,14 +297,16 @@ def _run_sim(case, order):
                     self.name = nm
 
                 def __call__(self, index, *a):
-                    return pd.Series(1.0, index=index)
+                    return pd.Series(value, index=index)
             return Tbl(f"tbl{j}_{self.name}")
 
         def setup(self, b):
             for j, op in enumerate(self.spec["setup"]):
                 k = op[0]
+                form = ["list", "tuple", "str"][(j + len(self.name)) % 3]
                 if k == "init":
-                    _, creates, rc, rv, rs = op
+                    creates, rc, rv, rs = op[1:5]
+                    call = op[5] if len(op) > 5 else "kw"
                     label = f"{self.name}.init{j}"
                     view = b.population.get_view(list(creates)) if creates else None
 
@@ -264,18 +314,40 @@ def _run_sim(case, order):
                         record(label, d)
                         write(view, creates, d)
                     f.__name__ = f"init{j}"
-                    b.population.initializes_simulants(types.MethodType(f, self), creates_columns=one(creates),
-                                                       requires_columns=one(rc), requires_values=one(rv), requires_streams=one(rs))
-                elif k == "src":
-                    b.value.register_value_producer(op[1], source=self._callable(b, j, op[2]), requires_columns=list(op[3]),
-                                                    requires_values=list(op[4]), requires_streams=list(op[5]))
+                    m = types.MethodType(f, self)
+                    if call == "pos":       # every argument positional
+                        b.population.initializes_simulants(m, seq(creates, form), seq(rc, form), seq(rv, form), seq(rs, form))
+                    elif call == "sparse":  # only the keywords that say something
+                        kw = {key: seq(val, form) for key, val in (("creates_columns", creates), ("requires_columns", rc),
+                                                                   ("requires_values", rv), ("requires_streams", rs)) if val}
+                        b.population.initializes_simulants(m, **kw)
+                    else:
+                        b.population.initializes_simulants(m, creates_columns=seq(creates, form), requires_columns=seq(rc, form),
+                                                           requires_values=seq(rv, form), requires_streams=seq(rs, form))
+                elif k in ("src", "rate"):
+                    reg = b.value.register_value_producer if k == "src" else b.value.register_rate_producer
+                    cont = tuple if form == "tuple" else list
+                    reg(op[1], source=self._callable(b, j, op[2]), requires_columns=cont(op[3]),
+                        requires_values=cont(op[4]), requires_streams=cont(op[5]))
                 elif k == "mod":
-                    b.value.register_value_modifier(op[1], self._callable(b, j, op[2]), requires_columns=list(op[3]),
-                                                    requires_values=list(op[4]), requires_streams=list(op[5]))
+                    cont = tuple if form == "tuple" else list
+                    if form == "str":       # positional call form
+                        b.value.register_value_modifier(op[1], self._callable(b, j, op[2]), list(op[3]), list(op[4]), list(op[5]))
+                    else:
+                        b.value.register_value_modifier(op[1], self._callable(b, j, op[2]), requires_columns=cont(op[3]),
+                                                        requires_values=cont(op[4]), requires_streams=cont(op[5]))
+                elif k == "stepmod":        # a step-size modifier must return step sizes
+                    b.time.register_step_size_modifier(self._callable(b, j, op[1], pd.Timedelta(days=1)), requires_columns=list(op[2]),
+                                                       requires_values=list(op[3]), requires_streams=list(op[4]))
                 elif k == "getv":
                     b.value.get_value(op[1])
                 elif k == "strm":
-                    b.randomness.get_stream(op[1], initializes_crn_attributes=bool(op[2]))
+                    if op[2]:
+                        b.randomness.get_stream(op[1], initializes_crn_attributes=True)
+                    elif form == "str":
+                        b.randomness.get_stream(op[1], False)
+                    else:
+                        b.randomness.get_stream(op[1])
                 elif k == "raw":
                     _, rtype, names, deps = op
                     label = f"{self.name}.raw{j}"
@@ -299,35 +371,78 @@ def _run_sim(case, order):
         @property
         def initialization_requirements(self):
             h = self.spec["hook"]
-            return {"requires_columns": list(h["rc"]), "requires_values": list(h["rv"]), "requires_streams": list(h["rs"])}
+            form = h.get("form", "list")        # list | tuple | str | omit (keys without requirements left out)
+            d = {"requires_columns": h["rc"], "requires_values": h["rv"], "requires_streams": h["rs"]}
+            if form == "omit":
+                return {key: list(val) for key, val in d.items() if val}
+            return {key: seq(val, form) for key, val in d.items()}
 
         def on_initialize_simulants(self, d):
             record(self.name, d)
             if self.spec["hook"]["creates"]:
                 write(self.population_view, self.spec["hook"]["creates"], d)
 
+    class Parent(Component):
+        """registers nothing; only changes the SHAPE in which the components are supplied"""
+        name = "zz_parent"
+
+        def __init__(self, subs):
+            super().__init__()
+            self._subs = subs
+
+        @property
+        def sub_components(self):
+            return self._subs
+
     class Birth(Component):
+        """creates simulants from every main-loop phase (count 0 included); may untrack simulant 0 first"""
         name = "zz_birth"
 
-        def __init__(self, births):
+        def __init__(self, plan, untrack):
             super().__init__()
-            self.births, self.k = births, 0
+            self.plan, self.k, self.untrack = plan, 0, untrack
 
         def setup(self, b):
             self.creator = b.population.get_simulant_creator()
+            self.tracked = b.population.get_view(["tracked"])
+
+        def _phase(self, ph, e):
+            if ph == 0 and self.k == 0 and self.untrack and 0 in ref["pm"]._population.index:
+                self.tracked.update(pd.Series(False, index=pd.Index([0]), name="tracked"))
+            if self.k < len(self.plan):
+                for p, cnt in self.plan[self.k]:
+                    if p == ph:
+                        LOG.append(["#", cnt])
+                        idx = self.creator(cnt, {"sim_state": "birth"}) if p % 2 else self.creator(cnt)
+                        LOG.append(["#ret", [int(i) for i in idx]])
+            if ph == 3:
+                self.k += 1
+
+        def on_time_step_prepare(self, e):
+            self._phase(0, e)
 
         def on_time_step(self, e):
-            if self.k < len(self.births):
-                for cnt in self.births[self.k]:
-                    LOG.append(["#", cnt])
-                    idx = self.creator(cnt, {"sim_state": "birth"})
-                    LOG.append(["#ret", [int(i) for i in idx]])
-            self.k += 1
+            self._phase(1, e)
+
+        def on_time_step_cleanup(self, e):
+            self._phase(2, e)
+
+        def on_collect_metrics(self, e):
+            self._phase(3, e)
 
     comps = [(Hook if case["comps"][i].get("hook") is not None else Base)(case["comps"][i]) for i in order]
-    births = case.get("births") or []
+    shape = case.get("shape")
+    if shape and len(comps) >= 2:
+        lo, hi = shape["span"][0] % len(comps), shape["span"][1] % (len(comps) + 1)
+        lo, hi = min(lo, hi), max(lo, hi)
+        inner = comps[lo:hi]
+        if shape.get("nested") and len(inner) >= 2:
+            inner = [inner[0], list(inner[1:-1]), (inner[-1],)]
+        if inner:
+            comps = comps[:lo] + [Parent(inner)] + comps[hi:]
+    births = birth_plan(case)
     if births:
-        comps.append(Birth(births))
+        comps.append(Birth(births, bool(case.get("untrack"))))
     out = {"error": None, "graph": None}
     phase = "construct"
     sim = None
@@ -481,6 +596,11 @@ def gen_dag(rng, n_init=None, n_pipe=None, n_strm=None, raw_ok=True):
         if sourced:
             things.append(("src", v))
         things += [("mod", v, j) for j in range(nm)]
+    # step-size modifiers (builder.time.register_step_size_modifier) modify the framework's own pipeline "S"
+    n_step = rng.choice([0, 0, 0, 1, 2])
+    if n_step:
+        pipes["S"] = {"sourced": False, "nm": n_step}
+        things += [("mod", "S", j) for j in range(n_step)]
     rng.shuffle(things)
     rank = {t: r for r, t in enumerate(things)}
     cols = {}
@@ -492,26 +612,33 @@ def gen_dag(rng, n_init=None, n_pipe=None, n_strm=None, raw_ok=True):
     first_stream = min([rank[("strm", s)] for s in range(n_strm)], default=len(things))
     keycand = [c for t, cs in cols.items() if rank[t] < first_stream for c in cs]
     keys = rng.sample(keycand, min(len(keycand), rng.randint(1, 2))) if keycand and rng.random() < (0.7 if n_strm else 0.2) else []
+    if n_strm and rng.random() < 0.25:          # a key column nobody creates, and the framework's own column, listed first
+        keys = rng.choice([["zz_nokey"], ["tracked"], ["zz_nokey", "tracked"]]) + keys
     crn = {s: rng.random() < 0.15 for s in range(n_strm)}
+
+    def pname(v):
+        return "simulant_step_size" if v == "S" else f"v{v}"
 
     def pipe_rank(v):
         parts = ([("src", v)] if pipes[v]["sourced"] else []) + [("mod", v, j) for j in range(pipes[v]["nm"])]
         return max(rank[p] for p in parts)
 
+    def salt(xs, unmet, p):
+        """an unmet requirement at a random place (first included), sometimes a repeated name"""
+        if rng.random() < p:
+            xs.insert(rng.randint(0, len(xs)), unmet)
+        if xs and rng.random() < 0.05:
+            xs.insert(rng.randint(0, len(xs)), rng.choice(xs))
+        return xs
+
     def pick_reqs(r, dens):
         ac = [c for t, cs in cols.items() if rank[t] < r for c in cs]
-        av = [f"v{v}" for v in pipes if pipe_rank(v) < r]
+        av = [pname(v) for v in pipes if pipe_rank(v) < r] + ([] if "S" in pipes else ["simulant_step_size"])
         as_ = [f"s{s}" for s in range(n_strm) if rank[("strm", s)] < r]
         rc = rng.sample(ac, min(len(ac), rng.choice([0, 1, 1, 2]))) if rng.random() < dens else []
         rv = rng.sample(av, min(len(av), rng.choice([1, 1, 2]))) if rng.random() < dens else []
         rs = rng.sample(as_, min(len(as_), 1)) if rng.random() < dens * 0.7 else []
-        if rng.random() < 0.08:
-            rc.append("zz_nocol")
-        if rng.random() < 0.06:
-            rv.append("zz_noval")
-        if rng.random() < 0.05:
-            rs.append("zz_nostrm")
-        return rc, rv, rs
+        return salt(rc, "zz_nocol", 0.1), salt(rv, "zz_noval", 0.08), salt(rs, "zz_nostrm", 0.06)
 
     dens = rng.choice([0.35, 0.6, 0.85])
     comps, by_init = [], {}
@@ -523,8 +650,9 @@ def gen_dag(rng, n_init=None, n_pipe=None, n_strm=None, raw_ok=True):
             # [] (= a view on all columns) cannot be used to create columns, so only column-less probes use it
             colreq = rng.choice([None, None, None if cr else [], [c for cs in cols.values() for c in cs if c not in cr][:2] or None])
             c = _comp(f"I{i}", _hook(cr, rc, rv, rs, colreq))
+            c["hook"]["form"] = rng.choice(["list", "list", "tuple", "str", "omit"])
         else:
-            c = _comp(f"I{i}", None, [["init", list(cr), rc, rv, rs]])
+            c = _comp(f"I{i}", None, [["init", list(cr), rc, rv, rs, rng.choice(["kw", "kw", "pos", "sparse"])]])
         comps.append(c)
         by_init[i] = c
     plain = []
@@ -544,15 +672,20 @@ def gen_dag(rng, n_init=None, n_pipe=None, n_strm=None, raw_ok=True):
         """mostly plain callables; sometimes the Pipeline object of a pipeline of lower rank (obtained with get_value in
         whatever component this lands in, i.e. possibly before that pipeline has a source: finding F17)"""
         av = [v for v in pipes if v != t[1] and pipe_rank(v) < r]
+        if t[1] == "S":             # a step-size modifier is really called by the clock: it must return step sizes
+            return rng.choice(["func", "method", "named", "object", "partial"])
         if av and rng.random() < 0.15:
-            return f"pipe:v{rng.choice(av)}"
-        return rng.choice(["func", "method", "named"])
+            return f"pipe:{pname(rng.choice(av))}"
+        return rng.choice(["func", "method", "named", "object", "partial", "table"])
 
     for t in others:
         r = rank[t]
         if t[0] == "src":
             rc, rv, rs = pick_reqs(r, dens)
-            home()["setup"].append(["src", f"v{t[1]}", kind_of(t, r), rc, rv, rs])
+            home()["setup"].append([rng.choice(["src", "src", "rate"]), f"v{t[1]}", kind_of(t, r), rc, rv, rs])
+        elif t[0] == "mod" and t[1] == "S":
+            rc, rv, rs = pick_reqs(r, dens)
+            home()["setup"].append(["stepmod", kind_of(t, r), rc, rv, rs])
         elif t[0] == "mod":
             rc, rv, rs = pick_reqs(r, dens)
             home()["setup"].append(["mod", f"v{t[1]}", kind_of(t, r), rc, rv, rs])
@@ -566,7 +699,7 @@ def gen_dag(rng, n_init=None, n_pipe=None, n_strm=None, raw_ok=True):
     comps += plain
     # get_value of an existing pipeline, or of one nobody sources or modifies (it still becomes a `value` resource)
     for _ in range(rng.choice([0, 0, 0, 1, 2])):
-        rng.choice(comps)["setup"].append(["getv", rng.choice([f"v{v}" for v in pipes] + ["vg0", "vg1"])])
+        rng.choice(comps)["setup"].append(["getv", rng.choice([pname(v) for v in pipes] + ["vg0", "vg1"])])
     if rng.random() < 0.1:
         _add_req(rng.choice(list(by_init.values())), "rv", rng.choice(["vg0", "vg1"]))
     # the initializer op of an explicit component goes to a random place among its setup ops
@@ -585,7 +718,7 @@ def _pick_with_column(rng, case):
     return rng.choice(cand)
 
 
-CYCLES = ["col2", "col3", "self", "src", "mod", "stream", "valueonly", "srcpipe", "twopipes"]
+CYCLES = ["col2", "col3", "self", "src", "mod", "stream", "valueonly", "srcpipe", "twopipes", "rawonly", "downstream", "stepmod"]
 
 
 def inject_cycle(rng, case, kind):
@@ -622,6 +755,14 @@ def inject_cycle(rng, case, kind):
         comps.append(_comp("CP", None, [["src", "cyc_v", "func", [], ["cyc_w"], []]]))
         comps.append(_comp("CQ", None, [["src", "cyc_w", "func", [], [], []], ["mod", "cyc_w", "named", [cx], [], []]]))
         _add_req(x, "rv", "cyc_v")
+    elif kind == "rawonly":       # two raw non-initializer resources that need each other; no initializer near
+        comps.append(_comp("CR", None, [["raw", "stream", ["cyc_rs"], ["value.cyc_rv"]], ["raw", "value", ["cyc_rv"], ["stream.cyc_rs"]]]))
+    elif kind == "downstream":    # a value cycle that depends on a column but that no initializer depends on
+        comps.append(_comp("CP", None, [["src", "cyc_v", "func", [cx], ["cyc_w"], []]]))
+        comps.append(_comp("CQ", None, [["rate", "cyc_w", "object", [], ["cyc_v"], []]]))
+    elif kind == "stepmod":       # through the framework's own step-size pipeline
+        comps.append(_comp("CT", None, [["stepmod", "func", ["zz_nocol", cx], [], []]]))
+        _add_req(x, "rv", "simulant_step_size")
     rng.shuffle(comps)
     case["why"] = "cycle-" + kind
     return case
@@ -671,7 +812,7 @@ def inject_dup(rng, case, kind):
     return case
 
 
-ADV = ["mod", "src", "stream", "srcpipe", "modpipe", "deepvalues", "unsourced"]
+ADV = ["mod", "src", "stream", "srcpipe", "modpipe", "deepvalues", "unsourced", "stepmod", "rate", "tablemod", "objmod"]
 
 
 def gen_adversarial(rng, kind, depth=None, null_consumer=None, explicit=None):
@@ -684,41 +825,63 @@ def gen_adversarial(rng, kind, depth=None, null_consumer=None, explicit=None):
         comps.append(_comp(f"D{d}", _hook([f"d{d}"], rc=rc)) if rng.random() < 0.7 else _comp(f"D{d}", None, [["init", [f"d{d}"], rc, [], []]]))
     z = f"d{depth - 1}"
     keys, rv, rs = [], [], []
-    mk = rng.choice(["func", "method", "named"])
+    mk = rng.choice(["func", "method", "named", "object", "partial"])
+    first = rng.random() < 0.5      # an unmet requirement listed BEFORE the one that matters, in the same list
+
+    def hot(unmet="zz_nocol"):
+        return [unmet, z] if first else [z]
     if kind == "mod":
         comps.append(_comp("PV", None, [["src", "v", "func", [], [], []]]))
         nm = rng.randint(1, 3)
-        hot = rng.randrange(nm)
+        hot_j = rng.randrange(nm)
         for j in range(nm):
-            comps.append(_comp(f"PM{j}", None, [["mod", "v", mk, [z] if j == hot else [], [], []]]))
+            comps.append(_comp(f"PM{j}", None, [["mod", "v", mk, hot() if j == hot_j else [], [], []]]))
         rv = ["v"]
     elif kind == "src":
-        comps.append(_comp("PV", None, [["src", "v", mk, [z], [], []]]))
+        comps.append(_comp("PV", None, [["src", "v", mk, hot(), [], []]]))
+        rv = ["v"]
+    elif kind == "rate":          # the same through register_rate_producer
+        comps.append(_comp("PV", None, [["rate", "v", mk, hot(), [], []]]))
+        rv = ["v"]
+    elif kind == "stepmod":       # A needs the step-size pipeline; a step-size modifier needs z
+        comps.append(_comp("PT", None, [["stepmod", mk, hot(), [], []]]))
+        rv = ["simulant_step_size"]
+    elif kind == "tablemod":      # the modifier is a real LookupTable (named lookup_table_<n>)
+        comps.append(_comp("PV", None, [["src", "v", "table", [], [], []], ["mod", "v", "table", hot(), [], []]]))
+        rv = ["v"]
+    elif kind == "objmod":        # the modifier is a callable object / functools.partial (no name at all)
+        comps.append(_comp("PV", None, [["src", "v", "partial", [], [], []]]))
+        comps.append(_comp("PM", None, [["mod", "v", rng.choice(["object", "partial"]), hot(), [], []]]))
         rv = ["v"]
     elif kind == "stream":
-        keys = [z]
+        keys = hot("zz_nokey")
         comps.append(_comp("PS", None, [["strm", "s", False]]))
         rs = ["s"]
     elif kind == "srcpipe":       # v's source IS the pipeline w (registered, hence named, in the same component)
-        comps.append(_comp("PV", None, [["src", "w", "func", [z], [], []], ["src", "v", "pipe:w", [], [], []]]))
+        comps.append(_comp("PV", None, [["src", "w", "func", hot(), [], []], ["src", "v", "pipe:w", [], [], []]]))
         rv = ["v"]
     elif kind == "modpipe":       # v is modified by the pipeline w
         comps.append(_comp("PV", None, [["src", "w", "func", [z], [], []], ["src", "v", "func", [], [], []], ["mod", "v", "pipe:w", [], [], []]]))
         rv = ["v"]
     elif kind == "deepvalues":    # value -> value -> modifier -> stream -> key column
-        keys = [z]
+        keys = hot("zz_nokey")
         comps.append(_comp("PS", None, [["strm", "s", False]]))
         comps.append(_comp("PW", None, [["src", "w", "func", [], [], []]]))
         comps.append(_comp("PWM", None, [["mod", "w", mk, [], [], ["s"]]]))
         comps.append(_comp("PV", None, [["src", "v", "named", [], ["w"], []]]))
         rv = ["v"]
     elif kind == "unsourced":     # a pipeline nobody sources still orders through its modifier
-        comps.append(_comp("PM", None, [["mod", "v", mk, [z], [], []]]))
+        comps.append(_comp("PM", None, [["mod", "v", mk, hot(), [], []]]))
         rv = ["v"]
+    if first:                     # … and before A's own requirement
+        rv = ["zz_noval"] + rv if rv else rv
+        rs = ["zz_nostrm"] + rs if rs else rs
     null_consumer = rng.random() < 0.3 if null_consumer is None else null_consumer
     explicit = rng.random() < 0.3 if explicit is None else explicit
     cr = [] if null_consumer else ["a"]
-    comps.append(_comp("A", None, [["init", cr, [], rv, rs]]) if explicit else _comp("A", _hook(cr, rv=rv, rs=rs)))
+    comps.append(_comp("A", None, [["init", cr, [], rv, rs, rng.choice(["kw", "pos", "sparse"])]]) if explicit else _comp("A", _hook(cr, rv=rv, rs=rs)))
+    if not explicit:
+        comps[-1]["hook"]["form"] = rng.choice(["list", "tuple", "str", "omit"])
     for k in range(rng.randint(0, 2)):
         comps.append(_comp(f"X{k}", _hook([f"x{k}"])))
     rng.shuffle(comps)
@@ -839,6 +1002,20 @@ class C09(Prop):
         out.append({"kind": "sim", "keys": [], "pop": 0, "births": [[2], [1, 1]], "why": "pop0",
                     "comps": [_comp("A", _hook(["a"], rc=["b"])), _comp("B", _hook(["b"])), _comp("N", _hook([]))],
                     "orders": _orders(rng, 3, "quick")})
+        # every declaration form at once: requirements omitted / tuples / strings / positional / sparse keywords, an unmet
+        # requirement listed FIRST in every list (and an unmet key column and `tracked` among the key columns), rate
+        # producer, step-size modifier, lookup table and nameless callables, births from all four phases with count 0,
+        # an untracked simulant, components supplied as nested sub-components
+        out.append({"kind": "sim", "keys": ["zz_nokey", "tracked", "k"], "pop": 2, "why": "forms", "untrack": True,
+                    "births": [[[0, 0], [1, 2], [2, 1], [3, 0]], [[3, 1], [0, 1]]], "shape": {"span": [0, 5], "nested": True},
+                    "comps": [_comp("A", dict(_hook(["a"], rc=["zz_nocol", "b"], rv=["zz_noval", "v", "simulant_step_size"], rs=["zz_nostrm", "s"]), form="omit")),
+                              _comp("B", None, [["init", ["b"], ["zz_nocol", "k"], [], [], "pos"], ["strm", "s", False]]),
+                              _comp("K", None, [["init", ["k"], [], [], [], "sparse"], ["stepmod", "partial", ["zz_nocol", "b"], [], []]]),
+                              _comp("V", dict(_hook([], rv=["v"]), form="str"),
+                                    [["rate", "v", "table", ["zz_nocol", "b"], [], []], ["mod", "v", "object", [], [], ["zz_nostrm", "s"]],
+                                     ["mod", "v", "table", ["b", "b"], [], []]]),
+                              _comp("T", dict(_hook(["t"], rc=["a"]), form="tuple"))],
+                    "orders": [[0, 1, 2, 3, 4], [4, 3, 2, 1, 0], [3, 0, 4, 2, 1]]})
         # the finding, both kinds, all permutations
         for w in ("src", "mod"):
             c = gen_finding(random.Random(5), w)
@@ -876,8 +1053,11 @@ class C09(Prop):
             elif q < 0.42:
                 c = inject_dup(rng, c, rng.choice(DUPS))
         c["orders"] = _orders(rng, len(c["comps"]), tier)
-        if rng.random() < 0.5:
-            c["births"] = [[rng.randint(1, 2) for _ in range(rng.randint(1, 2))] for _ in range(rng.randint(1, 2))]
+        if rng.random() < 0.5:      # births from every main-loop phase, zero-count births included
+            c["births"] = [[[rng.randrange(4), rng.choice([0, 1, 1, 2])] for _ in range(rng.randint(1, 3))] for _ in range(rng.randint(1, 2))]
+            c["untrack"] = rng.random() < 0.3
+        if rng.random() < 0.3:      # supplied as sub-components of a parent (flat or nested lists / tuples)
+            c["shape"] = {"span": [rng.randrange(8), rng.randrange(9)], "nested": rng.random() < 0.5}
         return c
 
     def shrink(self, case):
@@ -1059,6 +1239,24 @@ class C09(Prop):
                                                             f"(creation #{len(run['creations']) - 1}) before the probe initializers were called"})
             return f
         probes = [t for t in A["inits"] if t not in (PM, CLOCK)]
+        # the dependency graph the order is read from must contain a path producer -> consumer for every requirement
+        # the declarations imply (an edge that cannot change the order networkx returns is otherwise invisible)
+        g = run.get("graph")
+        if g and "edges" in g:
+            part = {x: n for n, _ in g["nodes"] for x in n.split("+")}
+            adj = {}
+            for u, v in g["edges"]:
+                adj.setdefault(u, []).append(v)
+            _, reach = _reach({n: adj.get(n, []) for n, _ in g["nodes"]})
+            for lab in probes:
+                nx_ = part.get(A["things"][lab]["node"])
+                for p_ in sorted(A["before"].get(lab, ())):
+                    np_ = part.get(A["things"][p_]["node"])
+                    if nx_ is None or np_ is None or nx_ not in reach.get(np_, ()):
+                        f.append({"sig": "declared-dependency-not-in-graph",
+                                  "msg": f"{where}: {lab} (node {A['things'][lab]['node']}) requires {p_} (node {A['things'][p_]['node']}) "
+                                         f"but the resource graph has no path between them"})
+                        return f
         total = 0
         for k, cr in enumerate(run["creations"]):
             labels = [c[0] for c in cr["calls"]]
@@ -1094,7 +1292,7 @@ class C09(Prop):
 
     def _oracle_bare(self, case, obs):
         f = []
-        prod, things, first_access, late = {}, {}, None, False
+        prod, things, first_access, late, expected_edges = {}, {}, None, False, None
         for i, (op, res) in enumerate(zip(case["ops"], obs["ops"])):
             if op[0] == "add":
                 _, t, names, label, deps = op
@@ -1121,6 +1319,8 @@ class C09(Prop):
                 if long is None:
                     nulls = sum(1 for v in prod if v.startswith("null."))
                     prod[f"null.{nulls}"] = label
+                    long = [f"null.{nulls}"]
+                things[label]["node"] = "+".join(long)
             elif op[0] == "iter":
                 if first_access is None:
                     first_access = i
@@ -1145,8 +1345,18 @@ class C09(Prop):
                         if p in pos and pos[p] > pos[l]:
                             f.append({"sig": "ran-before-producer", "msg": f"op #{i}: {l} before {p} in {got}"})
                             return f
-            elif first_access is None:
-                first_access = i
+            else:
+                if first_access is None:
+                    first_access = i
+                if late is False and expected_edges is None:
+                    expected_edges = sorted({(things[prod[d]]["node"], t["node"]) for t in things.values()
+                                             for d in t["deps"] if prod.get(d) in things})
+                if expected_edges is not None and res[0] == "ok":
+                    got = {tuple(e) for e in res[2]}
+                    miss = [e for e in expected_edges if e not in got]
+                    if miss:
+                        f.append({"sig": "declared-dependency-not-in-graph", "msg": f"op #{i}: the graph lacks the declared dependencies {miss[:4]}"})
+                        return f
         return f
 
     # ---------------------------------------------------------------- reporting
@@ -1193,12 +1403,36 @@ class C09(Prop):
             t.append("op:hook-initializer")
         if any(op[0] in ("src", "mod") and op[2].startswith("pipe:") for c in case["comps"] for op in c["setup"]):
             t.append("pipeline-object-callable")
-        for k in ("func", "method", "named"):
-            if any(op[0] == "mod" and op[2] == k for c in case["comps"] for op in c["setup"]):
+        for k in ("func", "method", "named", "object", "partial", "table"):
+            if any((op[0] == "mod" and op[2] == k) or (op[0] == "stepmod" and op[1] == k) for c in case["comps"] for op in c["setup"]):
                 t.append("modifier-kind:" + k)
+            if any(op[0] in ("src", "rate") and op[2] == k for c in case["comps"] for op in c["setup"]):
+                t.append("source-kind:" + k)
+        for c in case["comps"]:
+            if c["hook"] is not None:
+                t.append("hook-form:" + c["hook"].get("form", "list"))
+            for op in c["setup"]:
+                if op[0] == "init":
+                    t.append("init-call:" + (op[5] if len(op) > 5 else "kw"))
+        for step in birth_plan(case):
+            for ph, cnt in step:
+                t.append(f"birth-phase:{ph}")
+                t.append("birth-count:0" if cnt == 0 else "birth-count:1+")
+        if case.get("untrack"):
+            t.append("untracked-before-births")
+        if case.get("shape"):
+            t.append("shape:sub-components" + ("-nested" if case["shape"].get("nested") else ""))
+        if any(k in ("zz_nokey", "tracked") for k in case["keys"]):
+            t.append("key-column-unmet-or-tracked")
+        for c in case["comps"]:
+            lists = ([c["hook"][k] for k in ("rc", "rv", "rs")] if c["hook"] else []) + \
+                    [x for op in c["setup"] if op[0] in ("init", "src", "rate", "mod", "stepmod") for x in op[1:] if isinstance(x, list)]
+            if any(len(x) >= 2 and x[0].startswith("zz_no") for x in lists):
+                t.append("unmet-requirement-listed-first")
         if any((c["hook"] is not None and not c["hook"]["creates"]) for c in case["comps"]):
             t.append("null-node")
-        if any("zz_no" in x for c in case["comps"] if c["hook"] for k in ("rc", "rv", "rs") for x in c["hook"][k]):
+        if any("zz_no" in x for c in case["comps"] if c["hook"] for k in ("rc", "rv", "rs") for x in c["hook"][k]) or \
+                any("zz_no" in str(op) for c in case["comps"] for op in c["setup"]):
             t.append("unmet-requirement")
         for run in obs["runs"][:1]:
             t.append("impl:" + _impl_class(run).split(":")[0] + (":" + run["error"][1] if run["error"] else ""))
